@@ -579,6 +579,43 @@ def r4_mmr(ctx, F):
                 acc += size
             grid += [(n, pos) for pos in sorted(edges) if 0 <= pos < n]
         bad = None
+        # positions past the end: the native structure reports InvalidPosition, so the procedure must not complete - it fails in
+        # its own arithmetic / assertions, or asks mtree_get for an index that does not exist at that depth (the VM rejects it)
+        past = [(n, pos) for n in range(1, 40) for pos in range(n, 4 * n + 9)] + [(2 ** 31, 2 ** 31), (2 ** 31, 2 ** 32 - 1), (0xFFFFFFFF, 0xFFFFFFFF), (3, 2 ** 32 - 2), (5, 2 ** 31 + 4)]
+        for n, pos in past:
+            env = {"pos": pos, "ptr": 1000}
+            completes = False
+            for st, ev, gd in paths:
+                e2 = dict(env)
+                for e in ev:
+                    if e[0] == "mem_load":
+                        e2[e[3]] = n
+                try:
+                    if not all(tev(c, e2) == val for c, val in gd):
+                        continue
+                    for e in ev:
+                        if e[0] in ("mem_loadw",):
+                            tev(e[2], e2)
+                    if any(e[0] == "assert" and tev(e[2], e2) != e[3] for e in ev):
+                        continue                # a failing assertion: the procedure does not complete
+                    mg = [e for e in ev if e[0] == "mtree_get"]
+                    if mg:
+                        d_, i_ = tev(mg[0][2], e2), tev(mg[0][3], e2)
+                        if d_ > 63 or i_ >= 2 ** d_:
+                            continue            # no such node: mtree_get fails
+                    for x in st[:4]:
+                        if isinstance(x, tuple) and x[0] not in ("f", "deep"):
+                            tev(x, e2)
+                    completes = True
+                except Fail:
+                    continue
+            if completes:
+                bad = "for num_leaves=%d the position %d is past the end, yet the procedure completes and returns a leaf (the native Mmr::get fails with InvalidPosition)" % (n, pos)
+                break
+        ctx.oblig(bad is None)
+        if bad:
+            ctx.violation("mmr-get-past-end", ploc("get"), "mmr::get: " + bad)
+            bad = None
         for n, pos in grid:
             for ptr in (0, 1000):
                 env = {"pos": pos, "ptr": ptr}
@@ -602,8 +639,11 @@ def r4_mmr(ctx, F):
                     loads = [e for e in ev if e[0] == "mem_load"]
                     lw = [e for e in ev if e[0] == "mem_loadw"]
                     mg = [e for e in ev if e[0] == "mtree_get"]
-                    others = [e for e in ev if e[0] not in ("mem_load", "mem_loadw", "mtree_get")]
-                    if len(loads) != 1 or tev(loads[0][2], e2) != ptr:
+                    others = [e for e in ev if e[0] not in ("mem_load", "mem_loadw", "mtree_get", "assert")]
+                    failing = [e for e in ev if e[0] == "assert" and tev(e[2], e2) != e[3]]
+                    if failing:
+                        bad = "the assertion at line %d fails at the valid position num_leaves=%d pos=%d" % (failing[0][1], n, pos)
+                    elif len(loads) != 1 or tev(loads[0][2], e2) != ptr:
                         bad = "the number of leaves is not read from mmr_ptr"
                     elif len(lw) != 1 or tev(lw[0][2], e2) != ptr + 1 + idx:
                         bad = "at num_leaves=%d pos=%d the peak is loaded from mmr_ptr+%s; the owning peak is peak %d, stored at mmr_ptr+%d" % (n, pos, (tev(lw[0][2], e2) - ptr) if lw else None, idx, 1 + idx)
@@ -755,11 +795,11 @@ def r5_hash_memory(ctx, decided):
             st, ev = live[0]
             asserts = [e for e in ev if e[0] == "assert"]
             if ea <= sa:
-                if not any(val(e[2], env) == 0 for e in asserts):
+                if not any(val(e[2], env) != e[3] for e in asserts):
                     bad = "an empty or reversed range (%d, %d) must be rejected" % (sa, ea)
                     break
                 continue
-            if any(val(e[2], env) != 1 for e in asserts):
+            if any(val(e[2], env) != e[3] for e in asserts):
                 bad = "the valid range %d..%d is rejected" % (sa, ea)
                 break
             odd = (ea - sa) & 1
